@@ -28,7 +28,7 @@ import (
 
 type c11Seen struct {
 	method, host, path, rawQuery, requestURI string
-	body                                    []byte
+	body                                     []byte
 }
 
 type c11Front struct {
@@ -69,6 +69,105 @@ func (f *c11Front) transport() *http.Transport {
 		},
 		DisableKeepAlives:     true,
 		ResponseHeaderTimeout: 20 * time.Second,
+	}
+}
+
+// c11Flaky: a round tripper whose first failFirst attempts fail below HTTP (connection refused, timeout, EOF); it
+// records, for every attempt it is asked to make, where the connection would go (URL host) and the Host header.
+type c11Flaky struct {
+	inner     http.RoundTripper
+	failFirst int
+	err       error
+	mu        sync.Mutex
+	attempts  [][2]string
+}
+
+func (x *c11Flaky) RoundTrip(req *http.Request) (*http.Response, error) {
+	hostHdr := req.Host
+	if hostHdr == "" {
+		hostHdr = req.URL.Host
+	}
+	x.mu.Lock()
+	x.attempts = append(x.attempts, [2]string{req.URL.Host, hostHdr})
+	n := len(x.attempts)
+	x.mu.Unlock()
+	if n <= x.failFirst {
+		if req.Body != nil {
+			req.Body.Close()
+		}
+		return nil, x.err
+	}
+	return x.inner.RoundTrip(req)
+}
+
+type c11NetTimeout struct{}
+
+func (c11NetTimeout) Error() string   { return "c11: i/o timeout" }
+func (c11NetTimeout) Timeout() bool   { return true }
+func (c11NetTimeout) Temporary() bool { return true }
+
+// c11FlakyCases: the first attempt(s) of an exchange fail below HTTP. Whatever the method does then (give up or
+// try again), every attempt it makes goes to the front with the broker's (or cache's) name in the Host header.
+func c11FlakyCases(t *testing.T, r *vh.Run, f *c11Front, brokers, fronts, caches []string) {
+	errs := []struct {
+		name string
+		err  error
+	}{
+		{"connection refused", &net.OpError{Op: "dial", Net: "tcp", Err: fmt.Errorf("connect: connection refused")}},
+		{"timeout", &net.OpError{Op: "dial", Net: "tcp", Err: c11NetTimeout{}}},
+		{"EOF", io.EOF},
+		{"unexpected EOF", io.ErrUnexpectedEOF},
+	}
+	k := 0
+	for _, front := range fronts[1:] {
+		for _, e := range errs {
+			for _, viaAMP := range []bool{false, true} {
+				k++
+				broker := brokers[k%len(brokers)]
+				cache := caches[1+k%(len(caches)-1)]
+				failFirst := 1 + k%2
+				f.mu.Lock()
+				f.status, f.body, f.location, f.seen, f.dialled = 200, c11Armor([]byte("answer")), "", nil, nil
+				f.mu.Unlock()
+				fl := &c11Flaky{inner: f.transport(), failFirst: failFirst, err: e.err}
+				var m RendezvousMethod
+				var err error
+				wantHost := ""
+				if viaAMP {
+					m, err = newAMPCacheRendezvous(broker, cache, front, fl)
+					cu, _ := url.Parse(cache)
+					wantHost = cu.Host
+				} else {
+					m, err = newHTTPRendezvous(broker, front, fl)
+					bu, _ := url.Parse(broker)
+					wantHost = bu.Host
+				}
+				if err != nil {
+					t.Fatal(err)
+				}
+				res := c11Exchange(m, []byte("poll"))
+				fl.mu.Lock()
+				attempts := append([][2]string(nil), fl.attempts...)
+				fl.mu.Unlock()
+				caseLine := fmt.Sprintf("amp=%v broker=%s cache=%s front=%q: the first %d attempt(s) fail with %s -> %d attempt(s) %v", viaAMP, broker, cache, front, failFirst, e.name, len(attempts), attempts)
+				r.Case(fmt.Sprintf("flaky-transport/amp=%v/%s/fail%d", viaAMP, e.name, failFirst), caseLine, true)
+				if res.out != "returned" {
+					r.OracleFail("exchange-"+strings.SplitN(res.out, ":", 2)[0], caseLine, res.out, "Exchange must return")
+					continue
+				}
+				for i, a := range attempts {
+					if a[0] != front {
+						r.OracleFail("fronting-connection-target", caseLine, fmt.Sprintf("attempt %d connects to %s", i+1, a[0]), "every attempt, also one made after a failed one, must connect to the front "+front)
+					}
+					if !viaAMP && a[1] != wantHost {
+						r.OracleFail("fronting-host-header", caseLine, fmt.Sprintf("attempt %d carries Host %s", i+1, a[1]), "the Host header must name "+wantHost)
+					}
+					if viaAMP && !strings.HasSuffix(a[1], wantHost) {
+						r.OracleFail("fronting-host-header", caseLine, fmt.Sprintf("attempt %d carries Host %s", i+1, a[1]), "the Host header must name the cache host (with its domain prefix) "+wantHost)
+					}
+				}
+			}
+		}
 	}
 }
 
@@ -231,6 +330,8 @@ func TestVerifC11Client(t *testing.T) {
 			}
 		}
 	}
+
+	c11FlakyCases(t, r, f, brokers, fronts, caches)
 
 	// ---------------------------------------------------------------- AMP cache rendezvous
 	type ampDoc struct {
